@@ -784,7 +784,9 @@ mod x86_64 {
         #[inline]
         pub unsafe fn write(frame: PhysFrame, flags: ApicBaseFlags) {
             let (_, old_flags) = Self::read_raw();
-            let reserved = old_flags & !(ApicBaseFlags::all().bits());
+            // The raw value also contains the old base address (bits 12-51),
+            // which must not be ORed onto the new one.
+            let reserved = old_flags & !(ApicBaseFlags::all().bits()) & !0x000f_ffff_ffff_f000;
             let new_flags = reserved | flags.bits();
 
             unsafe {
